@@ -18,8 +18,10 @@ compared to 1e-12 relative (the routing itself is one `+`; reductions may associ
 """
 from __future__ import annotations
 
+import gc
 import math
 import struct
+import weakref
 from itertools import repeat
 
 import einops as ein
@@ -205,6 +207,31 @@ def b(x):
     return "T" if x else "F"
 
 
+def kernel_kwargs(cfg, side):
+    """keyword arguments of the post / pre kernel of a kernel trainer.  `kw_tensor` (a documented feature: kernel arguments may
+    be tensors) gives the arguments of the sides listed in `kw_sides` as TENSORS: `scalar` = 0-d tensors, `persynapse` = one
+    learning rate per weight / delay (`lr_scale` times the side's rate, same sign everywhere), shaped like the parameter with a
+    trailing singleton so that it broadcasts over the batch and the receptive axis; `tc_tensor`: the time constant as well"""
+    lr, tc = (cfg["lr_a"], cfg["tc_a"]) if side == "post" else (cfg["lr_b"], cfg["tc_b"])
+    mode = cfg.get("kw_tensor")
+    if mode and side in cfg.get("kw_sides", ("post", "pre")):
+        if mode == "persynapse":
+            lr = lr * torch.tensor(cfg["lr_scale"][: nweights(cfg)], dtype=torch.float64).reshape(*geom(cfg)[2], 1)
+        else:
+            lr = torch.tensor(lr, dtype=torch.float64)
+        if cfg.get("tc_tensor"):
+            tc = torch.tensor(tc, dtype=torch.float64)
+    return {"learning_rate": lr, "time_constant": tc}
+
+
+def synapse_rate(cfg, side, e):
+    """the learning rate of weight / delay `e` on one side (a float, whatever way the argument is handed to the trainer)"""
+    lr = cfg["lr_a"] if side == "post" else cfg["lr_b"]
+    if cfg.get("kw_tensor") == "persynapse" and side in cfg.get("kw_sides", ("post", "pre")):
+        return lr * cfg["lr_scale"][e]
+    return lr
+
+
 def build_trainer(cfg):
     f, red = cfg["family"], RED[cfg["red"]]
     a, c = cfg["lr_a"], cfg["lr_b"]
@@ -223,8 +250,7 @@ def build_trainer(cfg):
         return L.MSTDPET(lr_post=a, lr_pre=c, tc_post=cfg["tc_a"], tc_pre=cfg["tc_b"], tc_eligibility=15.0,
                          trace_mode=cfg["trace"], batch_reduction=red)
     kk = dict(kernel_post=exp_stdp_post_kernel, kernel_pre=exp_stdp_pre_kernel,
-              kernel_post_kwargs={"learning_rate": a, "time_constant": cfg["tc_a"]},
-              kernel_pre_kwargs={"learning_rate": c, "time_constant": cfg["tc_b"]}, batch_reduction=red)
+              kernel_post_kwargs=kernel_kwargs(cfg, "post"), kernel_pre_kwargs=kernel_kwargs(cfg, "pre"), batch_reduction=red)
     if f == "KernelSTDP":
         return L.KernelSTDP(delayed=cfg["delayed"], **kk)
     if f == "DelayAdjustedKernelSTDP":
@@ -322,8 +348,8 @@ def request_line(cfg, layer, unit, signal=None):
         t_pre = conn.presyn_receptive(mon["spike_pre"].peek())
         t_delta = t_pre - t_post - conn.delay.unsqueeze(-1)
     if f in KERNEL:
-        dpost = exp_stdp_post_kernel(t_delta, a, cfg["tc_a"])
-        dpre = exp_stdp_pre_kernel(t_delta, c, cfg["tc_b"])
+        dpost = exp_stdp_post_kernel(t_delta, **kernel_kwargs(cfg, "post"))
+        dpre = exp_stdp_pre_kernel(t_delta, **kernel_kwargs(cfg, "pre"))
         return f"kernel {cfg['red']} {tensor_s(dpost)} {tensor_s(dpre)}"
     if f in ("DelayAdjustedSTDP", "DelayAdjustedSTDPD", "DelayAdjustedMSTDP", "DelayAdjustedMSTDPD"):
         ta = t_delta.abs()
@@ -395,8 +421,7 @@ def override_kwargs(cfg):
     if f in ("DelayAdjustedSTDPD", "DelayAdjustedMSTDPD"):
         return {"lr_neg": a, "lr_pos": c}
     if f in KERNEL:
-        return {"kernel_post_kwargs": {"learning_rate": a, "time_constant": cfg["tc_a"]},
-                "kernel_pre_kwargs": {"learning_rate": c, "time_constant": cfg["tc_b"]}}
+        return {"kernel_post_kwargs": kernel_kwargs(cfg, "post"), "kernel_pre_kwargs": kernel_kwargs(cfg, "pre")}
     if f == "LinearHomeostasis":
         return {"plasticity": a, "target": cfg["target"]}       # each cell keeps its OWN default target
     raise AssertionError(f)
@@ -415,6 +440,8 @@ def cell_cfgs(cfg):
             for k in cfg["abs_twin"]:
                 ov[k] = abs(ov[k])
             out.append(dict(cfg, cell="override-abs", **ov))
+    if cfg.get("cell_order") == "reversed":      # the cells with per-cell rates are registered BEFORE the one with the defaults
+        out.reverse()
     return out
 
 
@@ -487,7 +514,8 @@ def pair_parts(ccfg, last_pre, last_post):
             if tpre is None or tpost is None:
                 continue
             t = float(tpost - tpre) - (delays[e] if delays else 0.0)
-            val = a * math.exp(-abs(t) / tca) if t >= 0 else c * math.exp(-abs(t) / tcb)
+            val = (synapse_rate(ccfg, "post", e) * math.exp(-abs(t) / tca) if t >= 0
+                   else synapse_rate(ccfg, "pre", e) * math.exp(-abs(t) / tcb))
             if val >= 0:
                 pos[smp][e] += val
             else:
@@ -547,7 +575,17 @@ def run_case(cfg):
     recs = []
     last_pre = [[None] * nin(cfg) for _ in range(B)]
     last_post = [[None] * nout(cfg) for _ in range(B)]
+    drop = set(cfg.get("drop") or [])
     for step, (pre, post) in enumerate(cfg["history"]):
+        if drop and step == cfg.get("drop_at", 0):
+            # the layers owning the cells named in `drop` go away WITHOUT trainer.del_cell (a trainer only holds weak references
+            # to its cells; the layer owns them): every surviving cell must still be trained with its own hyperparameters
+            dead = [weakref.ref(u.cell) for cc, _l, u in cells if cc["cell"] in drop]
+            cells = [t for t in cells if t[0]["cell"] not in drop]
+            ccfg = layer = unit = _u = acc = None
+            gc.collect()
+            if any(r() is not None for r in dead):
+                raise RuntimeError("a dropped layer's cell is still alive after gc.collect(): the harness holds a reference to it")
         for smp in range(B):
             for i, v in enumerate(pre[smp]):
                 if v:
